@@ -269,7 +269,7 @@ def for_seq(ex, s, st, it, item_of=None, index_values=None):
         i0 = fresh('i', IntSort()); h0.assume(0 <= i0, i0 < n)
         _assume_inv(h0, LoopCtx(key, st, h0, pre, i=i0, n=n, arr=arr), inv)
         item0 = item_of(i0) if item_of else ZV('ref', Val.ref(asel(arr, i0)), elem0[4:]) if elem0.startswith('ref:') else ZV('val', asel(arr, i0))
-        return [s2 for s2, f2 in ex.assign(h0, s.target, item0)]
+        return [s2 for s2, f2 in ex.assign(h0, s.target, item0) if f2 is NEXT]
     h = havoc_loop(ex, st, s.body, extra_names=_target_names(s.target), bind=bind)
     res = []
     # one arbitrary iteration -- or, for a sequence of known length, one inductive step per concrete index
@@ -286,6 +286,7 @@ def for_seq(ex, s, st, it, item_of=None, index_values=None):
         if ex.feasible(b):
             item = item_of(i) if item_of else ZV('ref', Val.ref(asel(arr, i)), elem[4:]) if elem.startswith('ref:') else ZV('val', asel(arr, i))
             for s2, f2 in ex.assign(b, s.target, item):
+                if f2 is not NEXT: res.append((s2, f2)); continue          # binding the loop target failed (an item that cannot be unpacked)
                 for s3, f3 in ex.run_block(s.body, s2):
                     if f3 is NEXT or f3[0] == 'continue':
                         _oblige_inv(ex, key, 'preserve', s3, LoopCtx(key, st, s3, pre, i=i + 1, n=n, arr=arr), inv)
@@ -316,7 +317,7 @@ def for_set(ex, s, st, it, item_of=None):
         d0 = fresh('done', it.arr.sort())
         _assume_inv(h0, LoopCtx(key, st, h0, pre, done=d0, S=it.arr), inv)
         item0 = item_of(x0) if item_of else ZV('ref', x0) if it.ekind == 'ref' else ZV('val', x0) if it.ekind == 'val' else ZV('str', x0)
-        return [s2 for s2, f2 in ex.assign(h0, s.target, item0)]
+        return [s2 for s2, f2 in ex.assign(h0, s.target, item0) if f2 is NEXT]
     h = havoc_loop(ex, st, s.body, extra_names=_target_names(s.target), bind=bind)
     done = fresh('done', it.arr.sort())
     e = fresh('e', dom)
@@ -327,6 +328,7 @@ def for_set(ex, s, st, it, item_of=None):
     if ex.feasible(b):
         item = item_of(x) if item_of else ZV('ref', x) if it.ekind == 'ref' else ZV('val', x) if it.ekind == 'val' else ZV('str', x)
         for s2, f2 in ex.assign(b, s.target, item):
+            if f2 is not NEXT: res.append((s2, f2)); continue          # binding the loop target failed (an item that cannot be unpacked)
             for s3, f3 in ex.run_block(s.body, s2):
                 if f3 is NEXT or f3[0] == 'continue':
                     _oblige_inv(ex, key, 'preserve', s3, LoopCtx(key, st, s3, pre, done=Store(done, x, BoolVal(True)), S=it.arr), inv)
